@@ -444,5 +444,37 @@ def r16_7(ctx):
     return r
 
 
+def r16_8(ctx):
+    """MESSAGE-INTEGRITY is HMAC-SHA1 under the given key - the WHOLE key. HMAC (RFC 2104) replaces a key longer than
+    the hash block (64 bytes for SHA-1) by its hash and zero-pads a shorter one; only the variable-length constructor
+    does that. Building the MAC from a fixed-size key block (truncating / zero-padding by hand) agrees for keys of up
+    to 64 bytes and silently differs beyond - an ice-pwd may be up to 256 characters (RFC 8445 5.3). Also: the whole
+    `data` is fed, and the full output returned."""
+    r = RuleResult("R16.8", "K6/provenance", "hmac_sha1 keys the MAC with the whole key through the variable-length constructor")
+    fn = "transports::ice::stun::hmac_sha1"
+    b = ctx.body(fn)
+    r.scope.append(fn)
+    vs = [(bi, t) for bi, t, p in b.calls() if p and p.endswith("KeyInit>::new_from_slice")]
+    fixed = [(bi, t) for bi, t, p in b.calls() if p and p.endswith("KeyInit>::new")]
+    if not vs and not fixed:
+        raise core.CheckerError("R16.8: cannot find how hmac_sha1 constructs its MAC")
+    for bi, t in fixed:
+        r.violate(fn, "hmac:key", b.where(bi),
+                  "the MAC is constructed from a fixed-size key block (KeyInit::new): keys longer than 64 bytes are truncated instead of "
+                  "hashed, so MESSAGE-INTEGRITY differs from every other implementation for such keys")
+    for bi, t in vs:
+        k = b.term_operand(t["a"][0])
+        if k == ("arg", "key"):
+            r.ok({"site": b.where(bi), "key": "new_from_slice(key) - the whole key parameter"})
+        else:
+            r.violate(fn, "hmac:key", b.where(bi), "the MAC is keyed with %s, not with the whole `key` parameter" % mir.show(k, 80))
+    ups = [(bi, t) for bi, t, p in b.calls() if p and p.endswith("Mac>::update")]
+    if ups and all(b.term_operand(t["a"][1]) == ("arg", "data") for bi, t in ups):
+        r.ok({"update": "the whole `data` parameter"})
+    else:
+        r.violate(fn, "hmac:data", b.where(ups[0][0] if ups else 0), "the MAC is not computed over exactly the `data` parameter")
+    return r
+
+
 def run(ctx):
-    return [r16_1(ctx), r16_2(ctx), r16_3(ctx), r16_4(ctx), r16_5(ctx), r16_6(ctx), r16_7(ctx)]
+    return [r16_1(ctx), r16_2(ctx), r16_3(ctx), r16_4(ctx), r16_5(ctx), r16_6(ctx), r16_7(ctx), r16_8(ctx)]
